@@ -38,6 +38,8 @@ type c20Pre struct {
 	epochID      string
 	epochFound   bool
 	curEpoch     int64
+	origEpochID  string // the AVS's epoch identifier when the task was created, if it has changed since
+	origEpoch    int64  // current epoch number of that identifier
 	hasResult    bool
 	storedResult *avstypes.TaskResultInfo
 	pubKey       []byte
@@ -48,6 +50,7 @@ type c20Pre struct {
 }
 
 type c20Monitor struct {
+	taskEpochID map[string]string // task contract|id -> epoch identifier of its AVS at creation
 	BaseMonitor
 	results    map[string]*c20Result
 	challenged map[string]bool
@@ -159,6 +162,11 @@ func (m *c20Monitor) BeforeTx(r *Run, ctx sdk.Context, tx *BuiltTx) {
 		if res, err := k.GetTaskResultInfo(ctx, a.Operator, a.TaskAddr, a.TaskID); err == nil && res != nil {
 			pre.hasResult, pre.storedResult = true, res
 		}
+		if orig := m.taskEpochID[fmt.Sprintf("%s|%d", a.TaskAddr, a.TaskID)]; orig != "" && orig != avs.EpochIdentifier {
+			if e, found := app.EpochsKeeper.GetEpochInfo(ctx, orig); found {
+				pre.origEpochID, pre.origEpoch = orig, e.CurrentEpoch
+			}
+		}
 		pre.challenged = k.IsExistTaskChallengedInfo(ctx, a.Operator, a.TaskAddr, a.TaskID)
 		if pre.challenged {
 			pre.challenger, _ = k.GetTaskChallengedInfo(ctx, a.Operator, a.TaskAddr, a.TaskID)
@@ -166,6 +174,7 @@ func (m *c20Monitor) BeforeTx(r *Run, ctx sdk.Context, tx *BuiltTx) {
 	}
 	if a.Kind == "avstask" {
 		pre.lastID = r.latestTaskID(ctx, a.TaskAddr)
+		pre.epochID = k.GetAVSInfoByTaskAddress(ctx, a.TaskAddr).EpochIdentifier
 	}
 	m.pre = pre
 }
@@ -254,6 +263,10 @@ func (m *c20Monitor) AfterTx(r *Run, ctx sdk.Context, tx *TxResult) {
 			return
 		}
 		m.lastID[a.TaskAddr] = want
+		if m.taskEpochID == nil {
+			m.taskEpochID = map[string]string{}
+		}
+		m.taskEpochID[fmt.Sprintf("%s|%d", a.TaskAddr, want)] = pre.epochID
 		if pre.avsByTask == "" {
 			m.fail(r, "task-created-only-by-registered-task-contract", "no-avs", fmt.Sprintf("%s: task created for %s which is no AVS's task address", tx.Op, a.TaskAddr))
 			return
@@ -368,6 +381,15 @@ func (m *c20Monitor) afterResult(r *Run, ctx sdk.Context, tx *TxResult, a *AVSTx
 	t := pre.task
 	respEnd := int64(t.StartingEpoch) + int64(t.TaskResponsePeriod)
 	statEnd := respEnd + int64(t.TaskStatisticalPeriod)
+	if pre.origEpochID != "" {
+		// the AVS changed its epoch identifier after the task was created: the task's windows are
+		// numbers of the ORIGINAL identifier's epochs
+		in := (a.Stage == avstypes.TwoPhaseCommitOne && pre.origEpoch <= respEnd) || (a.Stage == avstypes.TwoPhaseCommitTwo && pre.origEpoch > respEnd && pre.origEpoch <= statEnd)
+		if !in {
+			r.violateKeepGoing(m.Name(), "result-accepted-only-under-stated-conditions", "window-counted-in-another-epoch-identifier", fmt.Sprintf("%s accepted in epoch %d of %q, the identifier the task was created under (response period ends with %d, statistical with %d); the AVS meanwhile counts in %q (epoch %d)", tx.Op, pre.origEpoch, pre.origEpochID, respEnd, statEnd, pre.epochID, pre.curEpoch))
+			r.Probe("c20_epoch_identifier_changed_under_task")
+		}
+	}
 	switch a.Stage {
 	case avstypes.TwoPhaseCommitOne:
 		if pre.hasResult || m.results[key] != nil {
